@@ -2,7 +2,8 @@
    kind 0  sequential history on one log file:
              (0 enc a pre (op ...))     enc: 0 scripted chunks, 1 PatternEncoder "{m}{n}"
              a: 1 append / 0 truncate   pre: (0) no file | (1 bytes)
-             op: (0 (chunk ...)) append one record | (1 a) drop the appender and build a new one
+             op: (0 (chunk ...)) append one record | (1 a) drop the appender and build a new one |
+                 (2 (chunk ...)) append a record whose (scripted) encoder writes the chunks, then fails
            result: ((ok disk) ...) — first entry after the initial build, then one per op
    kind 1  trace validation of a concurrent run of the real appender:
              (1 a pre yield ((record ...) per thread) observed-file)   record = (chunk ...)
@@ -27,11 +28,12 @@ Definition dec_pre (v : vl) : option (option bytes) :=
 
 Definition dec_chunks (v : vl) : option record := val_list val_S v.
 
-Inductive sop := SAppend (cs : record) | SReopen (a : bool).
+Inductive sop := SAppend (cs : record) | SReopen (a : bool) | SAppendFail (cs : record).
 
 Definition dec_sop (v : vl) : option sop :=
   match v with
   | VL [VN 0; cs] => match dec_chunks cs with Some l => Some (SAppend l) | None => None end
+  | VL [VN 2; cs] => match dec_chunks cs with Some l => Some (SAppendFail l) | None => None end
   | VL [VN _; VN a] => Some (SReopen (negb (a =? 0)))
   | _ => None
   end.
@@ -43,6 +45,9 @@ Fixpoint seq_run (enc : bool) (st : fstate) (ops : list sop) : list vl :=
   | [] => []
   | SAppend cs :: r =>
     let rs := append cap st (if enc then cs ++ [[10]] else cs) in
+    VL [VB (res_ok rs); VS (disk (res_state rs))] :: seq_run enc (res_state rs) r
+  | SAppendFail cs :: r =>               (* the scripted encoder writes cs, then returns Err *)
+    let rs := append_enc_fails cap st cs in
     VL [VB (res_ok rs); VS (disk (res_state rs))] :: seq_run enc (res_state rs) r
   | SReopen a :: r =>
     let st1 := snd (bw_flush st) in     (* BufWriter::drop flushes, ignoring errors *)
